@@ -171,6 +171,97 @@ mod proofs {
     std::mem::forget(g);
   }
 
+  /// number of newlines before `off`
+  fn spec_line(b: &[u8], off: usize) -> usize {
+    let mut n = 0;
+    let mut i = 0;
+    while i < off {
+      if b[i] == b'\n' {
+        n += 1;
+      }
+      i += 1;
+    }
+    n
+  }
+
+  /// `Node::start_pos()/end_pos()` (`line()`, `column(&node)`, `ts_point()`) of a node over
+  /// the 12-byte layout text of `c16_char_column_layout12`
+  #[kani::proof]
+  #[kani::unwind(14)]
+  fn c19_node_positions_layout12() {
+    let mut buf = [b'a', 0xC3, 0xA9, b'a', 0xE0, 0xA0, 0x80, 0xF0, 0x9F, 0x98, 0x80, b'a'];
+    if kani::any() {
+      buf[0] = b'\n';
+    }
+    if kani::any() {
+      buf[3] = b'\n';
+    }
+    if kani::any() {
+      buf[11] = b'\n';
+    }
+    let len = 12;
+    let s: usize = kani::any();
+    let e: usize = kani::any();
+    kani::assume(s <= e && e <= len && is_boundary(&buf, len, s) && is_boundary(&buf, len, e));
+    let src = unsafe { std::str::from_utf8_unchecked(&buf) };
+    let g = mk_grep(src, single_node(&buf, s as u32, e as u32));
+    let root = g.root();
+    let (sp, ep) = (root.start_pos(), root.end_pos());
+    kani::cover!(spec_line(&buf, e) == 2);
+    kani::cover!(spec_column(&buf, s) == 4);
+    assert!(sp.line() == spec_line(&buf, s) && ep.line() == spec_line(&buf, e));
+    assert!(sp.column(&root) == spec_column(&buf, s) && ep.column(&root) == spec_column(&buf, e));
+    let tp = sp.ts_point();
+    assert!((tp.row() as usize, tp.column() as usize) == (spec_line(&buf, s), byte_column(&buf, s)));
+    assert!(root.range() == (s..e));
+    std::mem::forget(root);
+    std::mem::forget(g);
+  }
+
+  /// the same after an in-place edit that inserts a multi-byte character into an ASCII
+  /// document: positions are those of the *new* text
+  fn positions_after_edit_at(pos: usize) {
+    mock_ts::reset_queue();
+    let mut old = [b'a'; 3];
+    if kani::any() {
+      old[1] = b'\n';
+    }
+    let src = unsafe { std::str::from_utf8_unchecked(&old) };
+    let mut g = mk_grep(src, single_node(&old, 0, 3));
+    // new text = old[..pos] é old[pos..]
+    let mut new = [0u8; 5];
+    let mut i = 0;
+    while i < 5 {
+      new[i] = if i < pos { old[i] } else if i == pos { 0xC3 } else if i == pos + 1 { 0xA9 } else { old[i - 2] };
+      i += 1;
+    }
+    mock_ts::push_tree(single_node(&new, 0, 5));
+    let r = g.edit(ast_grep_core::source::Edit::<String> { position: pos, deleted_length: 0, inserted_text: vec![0xC3, 0xA9] });
+    assert!(r.is_ok());
+    let root = g.root();
+    let ep = root.end_pos();
+    if pos == 3 {
+      kani::cover!(old[1] == b'\n');
+      kani::cover!(old[1] != b'\n');
+    }
+    assert!(g.source().as_bytes() == &new);
+    assert!(ep.line() == spec_line(&new, 5) && ep.column(&root) == spec_column(&new, 5));
+    std::mem::forget(root);
+    std::mem::forget(g);
+  }
+
+  /// the edit position is enumerated concretely (a symbolic splice position exhausts the
+  /// back end, DESIGN 3)
+  #[kani::proof]
+  #[kani::unwind(10)]
+  fn c19_node_positions_after_edit() {
+    let mut pos = 0;
+    while pos <= 3 {
+      positions_after_edit_at(pos);
+      pos += 1;
+    }
+  }
+
   /// the same on texts of exactly N bytes (concrete length: a heavier implementation that
   /// would exhaust the engine on symbolic-length text is still decided, DESIGN 3)
   fn display_exact<const N: usize>() {
